@@ -296,13 +296,37 @@ def parse_junit(text: str):
 
 # ----------------------------------------------------------------------------- oracles on the reports
 
+def norm_name(name: str) -> str:
+    """a presented file name with `x/..` and `.` components removed (names are compared as files, not as spellings)"""
+    import posixpath
+    return posixpath.normpath(name) if name else name
+
+
+def _norm_event(e: tuple, canon=norm_name) -> tuple:
+    return (e[0], canon(e[1])) + tuple(e[2:])
+
+
+def canon_rel_to(root_dir: str):
+    """-> function that maps a file name presented relative to root_dir (possibly spelled through `..`) to its
+    normalised form relative to root_dir"""
+    import posixpath
+
+    def canon(name: str) -> str:
+        if not name or name.startswith('/'):
+            return name
+        full = posixpath.normpath(posixpath.join('/R', root_dir, name))
+        return posixpath.relpath(full, posixpath.join('/R', root_dir))
+
+    return canon
+
+
 def progress_ok(obs: Observed, expected_events: Sequence[tuple], kinds_in_order: Sequence[int],
-                oracle_bug: bool = False) -> bool:
+                oracle_bug: bool = False, canon=norm_name) -> bool:
     """progress reporter, valid suite: the events on stdout are the expected ones (suites in order, every
     case once, each with the identifier of its outcome); the last line and the exit code are OK/0 iff
     every outcome is successful, else ERROR/4."""
     events, rest = parse_progress(obs.out)
-    if list(events) != list(expected_events):
+    if [_norm_event(e, canon) for e in events] != list(expected_events):
         return False
     all_ok = all(is_successful(k, oracle_bug) for k in kinds_in_order)
     if all_ok:
@@ -311,7 +335,7 @@ def progress_ok(obs: Observed, expected_events: Sequence[tuple], kinds_in_order:
 
 
 def junit_ok(obs: Observed, expected_suites: Sequence[Tuple[str, Sequence[Tuple[str, int]]]],
-             oracle_bug: bool = False) -> bool:
+             oracle_bug: bool = False, canon=norm_name) -> bool:
     """JUnit reporter, valid suite.  expected_suites: [(suite name or None, [(case name, kind), ...])] in
     processing order (a root suite without cases may be left out of a multi-suite report).
     tests = number of cases, failures + errors = number of unsuccessful ones, every unsuccessful case has a
@@ -327,7 +351,7 @@ def junit_ok(obs: Observed, expected_suites: Sequence[Tuple[str, Sequence[Tuple[
         if len(suites) != len(exp):
             return False
     for got, (name, cases, _is_root) in zip(suites, exp):
-        if [c[0] for c in got['cases']] != [c[0] for c in cases]:
+        if [canon(c[0]) for c in got['cases']] != [c[0] for c in cases]:
             return False
         if got['tests'] != len(cases):
             return False
@@ -632,11 +656,20 @@ def has_case_listed_twice(order) -> bool:
     return False
 
 
+# The statement says "processes each listed test case exactly once".  Read literally, a case file that one suite
+# names on two lines of its [cases] section (`1.case` and `*.case`) must still be processed once; exactly processes
+# it once per line.  True: the literal reading is the oracle (region `case-listed-twice` of harness/C16.py holds the
+# inputs on which exactly differs).  False: one processing per listing line is expected.
+LITERAL_ONCE_EACH = True
+
+
 def once_each(order):
     """The property read literally: "each listed test case exactly once" - a case that a suite lists more than
     once is processed once, at its first position."""
     if order is None:
         return None
+    if not LITERAL_ONCE_EACH:
+        return order
     out = []
     for s, cases in order:
         seen = []
@@ -787,7 +820,8 @@ def hierarchy_ok(obs: Observed, order, root: str, junit: bool, kind_of_rel: Call
         if obs.exit_code != 3 or obs.processed or obs.constructed:
             return False
         if junit:
-            return obs.out == ''
+            # the identifier is the progress reporter's; the statement says nothing about the JUnit reporter's stdout
+            return True
         return obs.out == 'INVALID_SUITE\n'
     if oracle_bug:
         # seeded oracle error: the listing suite before its sub-suites
@@ -801,17 +835,16 @@ def hierarchy_ok(obs: Observed, order, root: str, junit: bool, kind_of_rel: Call
 
     def pres(p: str) -> str:
         # files are presented relative to the directory of the root suite
-        if root_dir and p.startswith(root_dir + '/'):
-            return p[len(root_dir) + 1:]
-        return p
+        import posixpath
+        return posixpath.relpath(posixpath.join('/R', p), posixpath.join('/R', root_dir))
 
     exp_suites = [(pres(s), [(pres(c), kind_of_rel(c)) for c in cases], s == root) for s, cases in order]
+    canon = canon_rel_to(root_dir)
     if junit:
-        if obs.exit_code != 0:
-            return False
+        # (the exit code of a valid run under the JUnit reporter is not part of the statement)
         ev, rest = parse_progress(obs.err)
-        if ev != expected_events_of(exp_suites) or rest:
+        if [_norm_event(e, canon) for e in ev] != expected_events_of(exp_suites) or rest:
             return False
-        exp_x = [(n.rsplit('/', 1)[-1], cs, r) for n, cs, r in exp_suites]
-        return junit_ok(obs, exp_x)
-    return progress_ok(obs, expected_events_of(exp_suites), [k for _n, cs, _r in exp_suites for _c, k in cs])
+        return junit_ok(obs, exp_suites, canon=canon)
+    return progress_ok(obs, expected_events_of(exp_suites), [k for _n, cs, _r in exp_suites for _c, k in cs],
+                       canon=canon)
